@@ -69,6 +69,8 @@ class R:
     def _ret(self, h, m, e, in_trait=False):
         if h["kind"] == "query":
             r = self.tty(h["resp_ti"]) if in_trait else self.ty(h["resp_ti"])
+            if h.get("resp_explicit"):
+                return f"svmon::QResult<{r}, {'StdError' if h['ret_err'] == 'std' else e}>"
             return f"StdResult<{r}>" if h["ret_err"] == "std" else f"Result<{r}, {e}>"
         return f"StdResult<Response<{m}>>" if h["ret_err"] == "std" else f"Result<Response<{m}>, {e}>"
 
